@@ -226,8 +226,15 @@ def generate(rng, tier, run):
                 ops.append(['parse', ci, d2, tolerant, ['general']])
         elif x < 0.652 and docgen.base_kind(recipes[ci]) in ('K1', 'K2'):
             # pairs of documents that use one spec object in two different ways
-            fam = rng.randrange(3)
-            if fam == 0:
+            fam = rng.randrange(4)
+            if fam == 3:
+                # definitions made while parsing (macros, environments *and specials*) must stay
+                # inside that parse
+                ops.append(['parse', ci, rng.choice(['{\\defs{x} a~~b &&{c}}', '\\defs{y} ~~ !w', '\\defn{x}\\defd{y}']),
+                            tolerant, ['general']])
+                ops.append(['parse', ci, rng.choice(['a~~b && c !w', '~~~ &&{q} \\defd{z}', '\\begin{denv}[o]z\\end{denv} ~~']),
+                            rng.random() < 0.4, ['general']])
+            elif fam == 0:
                 # the same inner environment inside two different outer environments that extend
                 # the context (the delta objects live on the spec objects)
                 inner = rng.choice(['\\begin{xs}\\step[x]{mix}\\xam{p}{q}\\end{xs}',
@@ -441,7 +448,8 @@ def context_snapshot(ctx):
             if isinstance(name, str) and (kind, name) not in look:
                 look[(kind, name)] = id(getters[kind](name))
     snap['lookups'] = sorted([k[0], k[1], v] for k, v in look.items())
-    snap['specials_probe'] = [id(ctx.test_for_specials(p, i)) for p in ("~``''&", "a\n\n!v") for i in range(len(p))]
+    snap['specials_probe'] = [id(ctx.test_for_specials(p, i))
+                              for p in ("~~``''&&--!w", "a\n\n!v``` ?`!`---") for i in range(len(p))]
     for name in ('get_macro_spec', 'get_environment_spec', 'get_specials_spec'):
         u = getattr(ctx, name)('\0no-such-name\0')
         snap['unknown'].append(None if u is None else id(u))
